@@ -144,8 +144,12 @@ def parse_field_values_to_cinfo(field_values: FieldValues) -> version.V2Calendar
     week_v: MaybeInt = int(fvals['week_v']) if 'week_v' in fvals else None
 
     if year_y and doy:
-        date = version.date_from_doy(year_y, doy)
-        if date.year != year_y:
+        try:
+            date = version.date_from_doy(year_y, doy)
+        except OverflowError:
+            # day 366 of the year 9999
+            date = None
+        if date is None or date.year != year_y:
             # day 366 of a year that is not a leap year
             raise version.PatternError(f"Invalid day of year {doy} for year {year_y}")
         month = date.month
